@@ -38,11 +38,15 @@ def loop_shape(text):
 
 
 class LoopSpec:
-    def __init__(self, test, inv, decreases=None, extra_modifies=(), index_name=None):
+    def __init__(self, test, inv, decreases=None, extra_modifies=(), index_name=None, unroll=False):
         self.test = test                    # fingerprint: ast.unparse of the loop test / iter
         self.inv = list(inv)                # [(label, expr)]
         self.decreases = decreases
         self.extra_modifies = tuple(extra_modifies)
+        # a `for` over a range whose bounds are concrete on every path (e.g. range(len(cvect)) with a
+        # 2-tuple): executed iteration by iteration instead of through an invariant; a bound that is
+        # not concrete is an engine error, never a silent truncation
+        self.unroll = unroll
 
 
 class Contract:
